@@ -114,6 +114,9 @@ bool splinetable<Alloc>::write_key(const char* key, const T& value){
 										 "contain lowercase characters (key was '"+
 										 std::string(key)+"')");
 		}
+		if(13+keylen-1>=80) //no room for a value: the subtraction below would wrap around
+			throw std::runtime_error("Long (HIERARCH) FITS header keyword leaves no room "
+									 "for a value (key was '"+std::string(key)+"')");
 		maxdatalen=80-(13+keylen-1); //14 characters for "HIERARCH ", "= '", and "'"
 	}
 	std::ostringstream ss;
